@@ -48,6 +48,9 @@ type World struct {
 	savedRoots  []savedRoot
 	NameOfVid   map[int]string // canonical value id -> handle name given by the history
 	Undecodable int            // registers that failed to decode while projecting
+	Dangling    int            // references that did not resolve (or closed a cycle) while projecting
+	ColdReach   []int          // last cold observation: identifiers reached from the roots in the registers alone
+	ColdBad     int            // last cold observation: unresolved references + undecodable registers
 	RawIDs      bool           // cid() returns a function of the raw identifier instead of first-visit numbering
 }
 
@@ -370,12 +373,14 @@ func (p *projector) nodeOfID(id atree.SlabID) *Node {
 		p.onPath = map[atree.SlabID]bool{}
 	}
 	if p.onPath[id] {
+		p.w.Dangling++
 		return &Node{K: "cycle", ID: p.w.cid(id), E: []Elem{}, H: []Hdr{}, C: []*Node{}, Els: []*MapEls{}}
 	}
 	p.onPath[id] = true
 	defer delete(p.onPath, id)
 	s := p.w.peek(id)
 	if s == nil {
+		p.w.Dangling++
 		return &Node{K: "missing", ID: p.w.cid(id), E: []Elem{}, H: []Hdr{}, C: []*Node{}, Els: []*MapEls{}}
 	}
 	return p.nodeOfSlab(s)
@@ -433,6 +438,7 @@ func (p *projector) elemOf(st atree.Storable) Elem {
 		switch sl := s.(type) {
 		case nil:
 			e.C = "dangling"
+			p.w.Dangling++
 		case *atree.StorableSlab:
 			p.slabs[e.Ref] = true
 			e.C = "L"
@@ -747,7 +753,8 @@ func (w *World) ColdObserve() []RootObs {
 		cw.H[name] = nh
 		cw.Roots = append(cw.Roots, name)
 	}
-	roots, _ := cw.Observe()
+	roots, so := cw.Observe()
+	w.ColdReach, w.ColdBad = so.Reach, cw.Dangling+cw.Undecodable
 	return roots
 }
 
